@@ -160,6 +160,14 @@ func runCodec(c string) string {
 			chunks = append(chunks, unhx(h))
 		}
 		return strings.Join(implFeed(key, iv, chunks), " ; ")
+	case "RC":
+		// pieces fed one after the other to ONE decoding state, going on after a refusal as well (a caller may): nothing is
+		// claimed about the verdicts after the first refusal, only that no call panics or hangs
+		s := &readState{mode: decrypter(unhx(f[1]), unhx(f[2]))}
+		for _, h := range f[3:] {
+			s.step(unhx(h))
+		}
+		return "FED"
 	case "D":
 		// a plaintext: encrypted by the harness, read in one piece
 		p := unhx(f[1])
@@ -766,6 +774,35 @@ func init() {
 			for _, v := range variants {
 				ct := crypt(encrypter(key, nil), v)
 				chunkings(r, ct, nr, func(cs [][]byte) { emit(rline(key, cs)) })
+			}
+		}
+		// going on after a refusal: a first piece that is refused (no magic / all zero / bad version / undefined type / bad
+		// length), then further pieces of every kind on the same state
+		firsts := [][]byte{make([]byte, 32), make([]byte, 64), append([]byte{0xe3, 0xdc, 0x00, 0x21}, make([]byte, 28)...), r.bytes(32)}
+		if len(seeds) > 2 && len(seeds[2]) >= 32 {
+			bad := append([]byte{}, seeds[2]...)
+			bad[22] = 0x11 // an undefined data type in the first item
+			firsts = append(firsts, bad)
+		}
+		nexts := [][]byte{make([]byte, 32), make([]byte, 96), r.bytes(32), r.bytes(64)}
+		if len(seeds) > 1 {
+			nexts = append(nexts, seeds[1])
+		}
+		for _, a := range firsts {
+			for _, b := range nexts {
+				for _, c := range nexts[:3] {
+					key := keys[r.intn(3)]
+					em := encrypter(key, nil)
+					var parts []string
+					for _, pz := range [][]byte{a, b, c} {
+						q := append([]byte{}, pz...)
+						for len(q)%32 != 0 {
+							q = append(q, 0)
+						}
+						parts = append(parts, hx(crypt(em, q)))
+					}
+					emit("RC " + hx(key) + " - " + strings.Join(parts, " "))
+				}
 			}
 		}
 	}
